@@ -19,7 +19,13 @@ fn parse_file_context(
     dir_entry: &DirEntry,
 ) -> anyhow::Result<Option<ParseFileContext>> {
     let crate_name = if multi_file {
-        let Some(crate_name) = CrateName::find_crate_name(dir_entry.path()) else {
+        // The crate is the directory above `src`. Look for it in the resolved path: as
+        // spelled on the command line that directory may be `.` (run from inside the
+        // crate) or missing altogether (the `src` directory itself was given).
+        let resolved = dir_entry.path().canonicalize();
+        let Some(crate_name) =
+            CrateName::find_crate_name(resolved.as_deref().unwrap_or(dir_entry.path()))
+        else {
             return Ok(None);
         };
         crate_name
